@@ -11,3 +11,5 @@ if [ -d /verif/harness-sched ]; then
   cargo build --offline 2>&1 | tail -3
 fi
 /verif/target/debug/vh selftest
+# coverage-guided targets (thorough tier); best effort here, ./check thorough rebuilds them anyway
+( cd /verif/harness && cargo +nightly fuzz build --fuzz-dir /verif/fuzz -s none 2>&1 | tail -1 ) || echo "fuzz targets not built now (the thorough tier builds them)"
